@@ -253,7 +253,7 @@ func TestC19_SignedManifest(t *testing.T) {
 		if _, err := env.Verify(&pipe.VerifyReq{Path: p}); err != nil {
 			failf(signed, "relic does not verify its own manifest signature: %v", err)
 		}
-		op := rapid.SampledFrom([]string{"restyle", "restyle", "mutate", "identity"}).Draw(t, "op")
+		op := rapid.SampledFrom([]string{"restyle", "restyle", "mutate", "mutate-and-forge-signedinfo", "identity"}).Draw(t, "op")
 		rec.Case(fmt.Sprintf("manifest|%x|%s|%s|%s", sha1.Sum(raw), key, h, op), "manifest/"+op+"/"+keys.Kind(key), true)
 		rec.Sample("manifest/"+op, map[string]any{"op": op, "key": key, "digest": h.String(), "classes": d.Classes()})
 		// JDK validates references and signature value; Microsoft's non-standard
@@ -317,6 +317,54 @@ func TestC19_SignedManifest(t *testing.T) {
 			os.WriteFile(p, re, 0o644)
 			if _, err := env.Verify(&pipe.VerifyReq{Path: p}); err != nil {
 				failf(re, "signature no longer verifies after a canonical-meaning-preserving re-serialisation (%s): %v", st, err)
+			}
+		case "mutate-and-forge-signedinfo":
+			// a meaning-changing edit, plus a second SignedInfo (not covered by the signature
+			// value) that carries the digest of the edited document
+			md, label := sd.MutateExcluding(t, func(n *xmlgen.Node, uri string) bool {
+				return n.Kind == xmlgen.Element && n.Local == "Signature" && uri == xmlgen.DSigNamespace
+			})
+			mut := md.Serialize(xmlgen.Style{})
+			referenceDigest := func(doc []byte) (string, string) {
+				x := etree.NewDocument()
+				if x.ReadFromBytes(doc) != nil || x.Root() == nil {
+					return "", ""
+				}
+				sig := x.Root().SelectElement("Signature")
+				if sig == nil {
+					return "", ""
+				}
+				stated := ""
+				if dv := sig.FindElement("SignedInfo/Reference/DigestValue"); dv != nil {
+					stated = strings.TrimSpace(dv.Text())
+				}
+				x.Root().RemoveChild(sig)
+				canon, err := xmldsig.SerializeCanonical(x.Root())
+				if err != nil {
+					return "", ""
+				}
+				hh := h.New()
+				hh.Write(canon)
+				return base64.StdEncoding.EncodeToString(hh.Sum(nil)), stated
+			}
+			// control: the construction reproduces the genuine digest of the signed document
+			if calc, stated := referenceDigest(signed); calc == "" || calc != stated {
+				t.Skip("harness: cannot reproduce the reference digest of this manifest")
+			}
+			forged, _ := referenceDigest(mut)
+			x := etree.NewDocument()
+			if x.ReadFromBytes(mut) != nil || x.Root() == nil || x.Root().SelectElement("Signature") == nil {
+				t.Skip("harness: mutated document lost its signature element")
+			}
+			sig := x.Root().SelectElement("Signature")
+			si := sig.SelectElement("SignedInfo")
+			extra := etree.NewElement("SignedInfo")
+			extra.CreateElement("Reference").CreateElement("DigestValue").SetText(forged)
+			sig.InsertChildAt(si.Index()+1, extra)
+			out, _ := x.WriteToBytes()
+			os.WriteFile(p, out, 0o644)
+			if _, err := env.Verify(&pipe.VerifyReq{Path: p}); err == nil {
+				failf(out, "signature verifies after a meaning-changing edit (%s) when a second, unsigned SignedInfo with the new digest is added", label)
 			}
 		case "mutate":
 			md, label := sd.MutateExcluding(t, func(n *xmlgen.Node, uri string) bool {
